@@ -17,7 +17,7 @@
    all structured rules (reductions, gathers, contractions, linalg, fft). *)
 From Coq Require Import Reals List Ring.
 From Coquelicot Require Import Coquelicot.
-From AG Require Import RealPrelude ScalarRules VSpace VSpaceProof Broadcast MatMul.
+From AG Require Import RealPrelude ScalarRules VSpace VSpaceProof Broadcast MatMul Select.
 From AGGen Require Import GenRules.
 Local Open Scope R_scope.
 
@@ -108,3 +108,17 @@ Theorem C01_maximum_generalised_gradient :
   /\ (forall x g, vjp_maximum_0 (Rmax x x) x x g = g / 2 /\ vjp_maximum_1 (Rmax x x) x x g = g / 2).
 Proof. exact (conj r_maximum_gt r_maximum_tie). Qed.
 Print Assumptions C01_maximum_generalised_gradient.
+
+(* selection primitives (reshape, transpose, flips, rolls, repeats, tiles, pads, joins, splits, where-branches, diag /
+   tril / triu, indexing; sort, max / min, maximum / minimum, clip, abs away from ties): whatever the selection list,
+   the scatter-add of the weighted cotangent is J^T g, in the argument's space *)
+Theorem C01_selection_rule_is_adjoint :
+  forall (K : Type) (k0 k1 : K) (kadd kmul ksub : K -> K -> K) (kopp : K -> K),
+    ring_theory k0 k1 kadd kmul ksub kopp eq ->
+    forall n sel g v,
+      Forall (Select.in_bounds K n) sel -> length g = length sel -> length v = n ->
+      dot K k0 kadd kmul (Select.sscatter K k0 kadd kmul n sel g) v = dot K k0 kadd kmul g (Select.sgather K k0 kmul sel v)
+      /\ length (Select.sscatter K k0 kadd kmul n sel g) = n
+      /\ length (Select.sgather K k0 kmul sel v) = length sel.
+Proof. exact Select.selection_rule_adjoint. Qed.
+Print Assumptions C01_selection_rule_is_adjoint.
